@@ -24,8 +24,8 @@ func init() {
 			runAllElems(c, "C17-ALLELEMS")
 			runLiveSettings(c, "C17-LIVE")
 			base(c, "DECLARED", "STATE", "ALIAS", "LOOP", "TEXT", "MAT", "RULESRC", "EXPORT", "FACADE")
-			importSome(c, "C18", runC18, "C17-URLVALUE", "a URL parameter registered as a group member carries its own, whole value: everything after the first '=' of its own text (obligations first-equals and own-text of rule C18-URL) — a value cut at a later '=' makes two different parameters look equal to botheq, or an '=…' value look empty to either", 2, func(key string) bool {
-				return strings.HasSuffix(key, "/first-equals") || strings.HasSuffix(key, "/own-text")
+			importSome(c, "C18", runC18, "C17-URLVALUE", "a URL parameter registered as a group member carries its own, whole value: everything after the first '=' of its own text (rule C18-URL: first-equals, own-text, first-question-mark, decode-after-split, decoded-delimiters, query-decoding) — a value cut at a later '=' or at an encoded delimiter makes two different parameters look equal to botheq, or a supplied value look empty to either, and a member behind the cut is never registered", 2, func(key string) bool {
+				return strings.Contains(key, "/C18-URL/") && !strings.HasSuffix(key, "/text-as-given")
 			})
 			importRules(c, "C04", runC04, "C17-OBJPATH", "groups are kept per object path, so the paths given to nested objects must tell them apart: Parent.Field, Parent.Field[index], Parent.Field[key] with the key rendered by ToStr (rule C04-LABEL) — a label that is the same for every entry of a map merges their groups", 2, ruleIn("C04-LABEL"))
 			importRules(c, "C12", runC12Input, "C17-OWNVALUE", "each group member keeps the value of its own field/entry until the groups are evaluated at the end of the call: no reflect.Value setter refreshes a shared storage cell per entry (rule C12-INPUT)", 1, nil)
@@ -108,6 +108,7 @@ func runC17(c *Ctx) {
 		c.Check(len(a.bad) == 0, "C17-KEY", fn, "member-path", a.pos, fmt.Sprintf("%d registrations carry the object path", a.n), uniqJoin(a.bad, 3))
 	}
 	runC17Eval(c)
+	runC17When(c)
 }
 
 // runC17Key interprets the accumulation function with a symbolic member.
@@ -272,4 +273,71 @@ func runC17Eval(c *Ctx) {
 			c.Check(len(bad) == 0 && cases > 0, "C17-EVAL", fnName(fn), fmt.Sprintf("size%d", size), fn.Pos(), fmt.Sprintf("%d emptiness/equality patterns agree", cases), uniqJoin(append(bad, fmt.Sprintf("%d patterns", cases)), 3))
 		}
 	}
+}
+
+// runC17When: groups are judged once, after the whole input has been walked. A member is registered when
+// its field is visited; an evaluation that runs while the walk is still going on (at the end of every
+// object, say) sees the groups of the enclosing objects half filled — a correct two-member group is then
+// reported as two single-member groups, or not at all.
+func runC17When(c *Ctx) {
+	p := c.P
+	c.Rule("C17-WHEN", "the group evaluation is never invoked from a walker or anything a walker calls: it runs after the walk, when every member of every object has been registered", 1)
+	judges := map[*ssa.Function]bool{}
+	for _, name := range []string{"either", "bothEq"} {
+		if fn := p.Method("valid", "validCommon", name); fn != nil {
+			judges[fn] = true
+		}
+	}
+	evaluators := map[*ssa.Function]bool{}
+	for _, fn := range p.Funcs {
+		if judges[fn] || fn.Blocks == nil {
+			continue
+		}
+		for _, b := range fn.Blocks {
+			for _, ins := range b.Instrs {
+				if ci, ok := ins.(ssa.CallInstruction); ok {
+					if cal := staticCallee(ci.Common()); cal != nil && judges[cal] {
+						evaluators[fn] = true
+					}
+				}
+			}
+		}
+	}
+	if len(evaluators) == 0 {
+		c.Unk("C17-WHEN", "valid", "evaluator", token.NoPos, "no function calling either/bothEq found (anchor unresolved)")
+		return
+	}
+	inWalk := map[*ssa.Function]*ssa.Function{}
+	for _, w := range findWalkers(p) {
+		for f := range reachableFrom(w.Fn) {
+			if inWalk[f] == nil {
+				inWalk[f] = w.Fn
+			}
+		}
+	}
+	var bad []string
+	n := 0
+	for _, fn := range p.Funcs {
+		if fn.Blocks == nil {
+			continue
+		}
+		for _, b := range fn.Blocks {
+			for _, ins := range b.Instrs {
+				ci, ok := ins.(ssa.CallInstruction)
+				if !ok {
+					continue
+				}
+				cal := staticCallee(ci.Common())
+				if cal == nil || !(evaluators[cal] || judges[cal]) || evaluators[fn] && judges[cal] {
+					continue
+				}
+				n++
+				if w := inWalk[fn]; w != nil {
+					bad = append(bad, fmt.Sprintf("%s: %s evaluates the groups (%s) while %s is still walking: members of the enclosing objects that are declared later have not been registered yet", p.Pos(instrPos(ins)), fnName(fn), cal.Name(), fnName(w)))
+				}
+			}
+		}
+	}
+	c.Sites += n
+	c.Check(len(bad) == 0 && n > 0, "C17-WHEN", "valid", "after-the-walk", token.NoPos, fmt.Sprintf("%d invocations of the group evaluation, none inside a walk", n), uniqJoin(bad, 3))
 }
